@@ -919,6 +919,30 @@ def _chain_end(se, a, kw):
     return V(OBJ("Namespace"), ce(a[0].t))
 
 
+@specfun("first_with_attr")
+def _first_with_attr(se, a, kw):
+    """first namespace of the `inherits` chain starting at the argument whose module has the attribute (None if
+    there is none): defined by recursion over the pre-state heap; the defining equations are instantiated only
+    where both the link and the hasattr test of that namespace occur (no unrolling beyond what the code inspects)"""
+    from .types import OBJ
+    fw = ops.UF("first_with_attr", z3.IntSort(), z3.StringSort(), z3.IntSort())
+    inh0 = z3.Const("H0_f:Namespace.inherits", z3.ArraySort(z3.IntSort(), z3.IntSort()))
+    mod0 = z3.Const("H0_f:Namespace.module", z3.ArraySort(z3.IntSort(), z3.IntSort()))
+    has = ops.UF("hasattr", z3.IntSort(), z3.StringSort(), z3.BoolSort())
+    n, k = z3.Int("n!fw"), z3.String("k!fw")
+    GLOBAL_AXIOMS["first_with_attr"] = z3.ForAll([n, k], z3.Implies(n > 0, z3.If(has(mod0[n], k), fw(n, k) == n, fw(n, k) == fw(inh0[n], k))),
+                                                 patterns=[z3.MultiPattern(inh0[n], has(mod0[n], k))])
+    GLOBAL_AXIOMS["first_with_attr_nil"] = z3.ForAll([k], fw(0, k) == 0, patterns=[fw(0, k)])
+    v = a[0]
+    t = v.t if v.ty.kind != "opt" else z3.If(v.isnone, 0, v.val.t)
+    return V(Ty("obj", (), "Namespace", True) if False else OBJ("Namespace"), fw(t, unopt(a[1]).t))
+
+
+@specfun("mod_getattr")
+def _mod_getattr(se, a, kw):
+    return V(ANY, ops.UF("getattr", z3.IntSort(), z3.StringSort(), z3.IntSort())(a[0].t, unopt(a[1]).t))
+
+
 @specfun("old_chain_end")
 def _old_chain_end(se, a, kw):
     """chain_end(context['self']) evaluated on entry"""
